@@ -4,8 +4,6 @@
 (* emits, over exact rationals.  Pure operators: (expression, environment, store) -> value.      *)
 EXTENDS HFStore
 (* expressions *)
-Kw(call, name) == LET S == {i \in 1..Len(call.kw) : call.kw[i].k = name} IN
-                  IF S = {} THEN [e |-> "absent"] ELSE call.kw[CHOOSE i \in S : TRUE].v
 IsCallTo(e, name) == e.e = "call" /\ e.fn.e = "name" /\ e.fn.id = name
 IsMeth(e, name) == e.e = "call" /\ e.fn.e = "attr" /\ e.fn.name = name
 Deref(st, v) == IF v.k = "ref" THEN NumI(LeafVal(st, v.sid, v.path)) ELSE IF v.k = "dflt" THEN NumI(0) ELSE v
